@@ -434,6 +434,20 @@ pub fn check(case: &Case, st: &mut Stats) -> CheckResult {
   Ok(())
 }
 
+fn stage_opts() -> SrcOpts {
+  let mut opts = SrcOpts::all_langs();
+  opts.allow_crlf = false;
+  opts.synth_weight = 4;
+  opts
+}
+
+/// the same stage, driven by bytes (coverage-guided tier)
+pub fn erased() -> crate::fuzz::Erased {
+  let corpus: &'static Corpus = Box::leak(Box::new(Corpus::load()));
+  let opts: &'static SrcOpts = Box::leak(Box::new(stage_opts()));
+  crate::fuzz::Erased::generic("C07", "templates", move || strategy(opts), move |c, st| interpret(corpus, opts, c, st), check)
+}
+
 pub fn run(cfg: &RunCfg) -> i32 {
   let mut report = Report::new(
     cfg,
@@ -447,12 +461,11 @@ pub fn run(cfg: &RunCfg) -> i32 {
   }
   let corpus = Corpus::load();
   crate::replay_known::<Case>(&mut report, &known, check);
-  let mut opts = SrcOpts::all_langs();
-  opts.allow_crlf = false;
-  opts.synth_weight = 4;
+  let opts = stage_opts();
   let total = cfg.budget(40_000, 1_000_000);
   let o = drive(cfg, "templates", total, &known, || strategy(&opts), |c, st| interpret(&corpus, &opts, c, st), check);
   report.absorb("templates", o);
   report.floor("multi_line_capture", 0.15, "evaluations");
+  crate::fuzz::stage(cfg, &mut report, &known, 40000);
   report.finish()
 }
